@@ -21,6 +21,10 @@ type HarnessSpec struct {
 	Domain     Domain
 	RoundModel bool
 	NonFinite  bool
+	DeltaModel bool // inexact float results are enclosed by the (1+d) model, |d|<=2^-53, instead of being taken as ideal
+	NoPrune    bool // branches are not pruned by feasibility queries (bug-hunting harnesses)
+	BugHunt    bool // an undecided (unknown) obligation is counted instead of making the run inconclusive: the harness only SEARCHES for counterexamples
+	IntInputs  bool // grid inputs are Int-sorted solver variables (needed by the exact rounding model); default: real relaxation
 	RealInputs bool // Float64Grid/Float64Range inputs are arbitrary REALS of the range (superset of the grid): pure NRA queries
 	Tiers      string   // "" both; "quick"; "thorough"
 	Covers     []string // witnesses that must be hit (vacuity guard)
@@ -106,6 +110,10 @@ func main() {
 				roots = append(roots, p)
 			}
 		}
+	}
+	eng.initRoots = roots
+	if len(spec.Harnesses) > 0 {
+		eng.cfg.Domain = spec.Harnesses[0].Domain
 	}
 	if err := eng.runInit(roots); err != nil {
 		fmt.Fprintln(os.Stderr, "INCONCLUSIVE", err)
@@ -560,7 +568,7 @@ func writeEvidence(verif string, spec CheckSpec, cfg Config, all []*HarnessStats
 			"bounds": st.Bounds, "cover_witnesses": st.Covers, "cut_paths": st.Cuts, "path_ends": st.Ends,
 			"max_instructions_on_a_path": st.MaxSteps, "unknown_branches_kept_both_sides": st.UnknownBranches,
 			"uninterpreted_float_ops": st.UFOps, "ideal_arithmetic_ops": st.IdealOps, "ideal_arithmetic_comparisons": st.IdealCmps,
-			"rn53_rounded_ops": st.RoundedOps, "permitted_panics(MayPanic)": st.PermittedPanics,
+			"rn53_rounded_ops": st.RoundedOps, "delta_model_enclosed_ops": st.EnclosedOps, "undecided_obligations(bug-hunting harness only)": st.Undecided, "permitted_panics(MayPanic)": st.PermittedPanics,
 		}
 		if len(st.Replaced) > 0 {
 			var rs []string
